@@ -11,6 +11,7 @@ mod cmp;
 mod cpu;
 mod dec;
 mod gen;
+mod model32;
 mod run_il;
 mod x86_asm;
 
